@@ -11,14 +11,15 @@ from pyvc.spec import *
 ROW = Opaque('row')
 
 CURSOR = Obj('beanquery.cursor:Cursor',
-             fields=dict(_context=Opaque('conn'), _description=Dyn(), _rows=Opt(ListOf(ROW)), _pos=Int(), arraysize=Int()),
+             fields=dict(_context=Opaque('conn'), _description=Dyn(), _rows=Opt(ListOf(ROW)), _rowcount=Int(), _pos=Int(), arraysize=Int()),
              ghost=dict(g_result=Opt(ListOf(ROW)), g_delivered=ListOf(ROW)))
 
 
 @spec
 def cursor_inv(c):
     return ((c._rows is None) == (c.g_result is None)) and (
-        c._rows is None or (c.g_result == c.g_delivered + c._rows and c._pos == len(c.g_delivered)))
+        c._rowcount == -1 if c._rows is None else
+        (c.g_result == c.g_delivered + c._rows and c._pos == len(c.g_delivered) and c._rowcount == len(c.g_result)))
 
 
 @spec
@@ -36,7 +37,7 @@ class cursor_init:
         self.g_delivered = []
     ensures = [('inv', lambda self: cursor_inv(self)),
                ('fresh-state', lambda self, connection: self._rows is None and self._description is None
-                and self._pos == 0 and self.arraysize == 1 and self._context is connection)]
+                and self._pos == 0 and self.arraysize == 1 and self._context is connection and self._rowcount == -1)]
 
 
 @contract('beanquery.cursor:Cursor.fetchone')
@@ -69,10 +70,10 @@ class fetchmany:
     ensures = [
         ('inv', lambda self: cursor_inv(self)),
         ('before-execute-empty', lambda old, result: implies(old.self._rows is None, len(result) == 0)),
-        ('partition', lambda old, self, result: implies(old.self._rows is not None, result + self._rows == old.self._rows)),
-        ('count', lambda old, self, size, result: implies(
-            old.self._rows is not None and (size if size is not None else old.self.arraysize) >= 0,
-            len(result) == min(size if size is not None else old.self.arraysize, len(old.self._rows)))),
+        ('partition', lambda old, self, result: old.self._rows is None or result + self._rows == old.self._rows),
+        ('count', lambda old, self, size, result:
+            old.self._rows is None or (size if size is not None else old.self.arraysize) < 0
+            or len(result) == min(size if size is not None else old.self.arraysize, len(old.self._rows))),
         ('empty-iff-exhausted', lambda old, size, result: implies(
             (size if size is not None else old.self.arraysize) >= 1, (len(result) == 0) == exhausted(old.self))),
         ('rownumber-counts', lambda old, self, result: self._pos == old.self._pos + len(result)),
@@ -103,7 +104,7 @@ class rownumber:
     params = {'self': CURSOR}
     requires = lambda self: cursor_inv(self)
     modifies = []
-    ensures = [('fetched-so-far', lambda self, result: implies(self._rows is not None, result == len(self.g_delivered)))]
+    ensures = [('fetched-so-far', lambda self, result: self._rows is None or result == len(self.g_delivered))]
 
 
 @contract('beanquery.cursor:Cursor.rowcount')
@@ -130,7 +131,7 @@ class cursor_iter:
     params = {'self': CURSOR}
     requires = lambda self: cursor_inv(self)
     modifies = []
-    ensures = [('iterates-remaining-rows', lambda self, result: result == ([] if self._rows is None else self._rows))]
+    ensures = [('iterates-remaining-rows', lambda self, result: list(result) == ([] if self._rows is None else self._rows))]
 
 
 # assumed contracts of the callees of execute (not verified here; see C05/C09/C01 for their own obligations)
@@ -163,7 +164,7 @@ class execute:
     props = ['C10', 'C09']
     params = {'self': CURSOR, 'query': Union(Str(), Opaque('ast')), 'params': Dyn()}
     requires = lambda self: cursor_inv(self)
-    modifies = ['self._rows', 'self._pos', 'self._description']
+    modifies = ['self._rows', 'self._pos', 'self._description', 'self._rowcount']
     raises = {'Exception': None}
     assumes = ['callee contracts of parse/compile/execute_query are assumed (result shapes, exception classes)']
 
